@@ -34,6 +34,9 @@ class DictDB:
     def get_siteinfo(self):
         return self.siteinfo
 
+    def select(self, start, end):
+        return sorted(title for title in self.data_dict if start <= title <= end)
+
 
 def expand_str(input_string, expected=None, wikidb=None, pagename="thispage"):
     """debug function. expand templates in string s"""
